@@ -451,17 +451,20 @@ func (ps *parser) primary() *Expr {
 // ---------- contract blocks ----------
 
 type Clause struct {
-	Kind  string // requires ensures invariant decreases raises assert lemma
-	E     *Expr
-	Tags  []string // property ids; empty = block tags
-	Label string   // optional user label  e.g. ensures "name": E
-	Line  string   // file:line
+	Kind    string // requires ensures invariant decreases raises assert lemma
+	E       *Expr
+	Tags    []string // property ids; empty = block tags
+	Label   string   // optional user label  e.g. ensures "name": E
+	Name    string   // let: the ghost constant's name
+	Assumed bool     // ensures clause used by callers but not proved (keyword assumes)
+	Line    string   // file:line
 }
 
 type LoopSpec struct {
 	Key        string // "1","2"... or label name
 	Invariants []*Clause
 	Decreases  *Clause
+	Exits      []*Clause // loop K exit E: holds on the edge leaving the loop from its header
 	Inherit    string
 }
 
@@ -497,11 +500,12 @@ type Contract struct {
 	HasMod     bool
 	Loops      map[string]*LoopSpec
 	Asserts    []*Clause
+	HasFrom    bool // has a from@ clause: only the tail of the function is verified
 	Mode       string
 	MayPanic   []string
 	Bounded    bool
 	File, Line string
-	NoSafe     bool   // skip SAFE obligations (must be listed as assumption)
+	NoSafe     bool // skip SAFE obligations (must be listed as assumption)
 	Unroll     int
 	ResultName string
 	Implements string
@@ -545,26 +549,26 @@ type SpecDB struct {
 	ConstGlobals map[string]bool
 	Immutable    map[string]bool // "T.f": field written only while its object is being constructed
 	Structural   []*StructDecl
-	Uninterps map[string]*Uninterp
-	Axioms    []*Lemma
-	Abstracts map[string]*Abstract
-	Contracts map[string]*Contract
-	Order     []string
-	Defines   map[string]*Define
-	Invs      map[string]*Define // named invariants = defines returning bool
-	Lemmas    []*Lemma
-	Assumes   []string // free-text assumptions collected (trusted/extern/outside)
-	Errors    []string
+	Uninterps    map[string]*Uninterp
+	Axioms       []*Lemma
+	Abstracts    map[string]*Abstract
+	Contracts    map[string]*Contract
+	Order        []string
+	Defines      map[string]*Define
+	Invs         map[string]*Define // named invariants = defines returning bool
+	Lemmas       []*Lemma
+	Assumes      []string // free-text assumptions collected (trusted/extern/outside)
+	Errors       []string
 }
 
 var keyLine = regexp.MustCompile(`^(func|iface|extern|trusted|dyn)\s+(.+?)\s*(\[[A-Z0-9 ,]+\])?\s*$`)
 var tagsRe = regexp.MustCompile(`^(\w[\w-]*)\[([A-Z0-9, ]+)\]`)
 
 var clauseKeywords = map[string]bool{"func": true, "iface": true, "extern": true, "trusted": true, "dyn": true, "define": true,
-	"lemma": true, "requires": true, "ensures": true, "raises": true, "noraise": true, "noreturn": true,
+	"lemma": true, "requires": true, "ensures": true, "assumes": true, "raises": true, "noraise": true, "noreturn": true,
 	"modifies": true, "loop": true, "assert": true, "mode": true, "inline": true, "pure": true,
 	"outside-subset": true, "assume": true, "may-panic": true, "nosafe": true, "end": true, "bounded": true,
-	"abstract": true, "implements": true, "cut": true, "uninterp": true, "axiom": true, "logged": true, "constglobal": true, "immutable": true, "initvalue": true}
+	"abstract": true, "implements": true, "cut": true, "uninterp": true, "axiom": true, "logged": true, "constglobal": true, "immutable": true, "initvalue": true, "let": true, "from": true}
 
 func splitTags(s string) []string {
 	s = strings.Trim(s, "[] ")
@@ -659,6 +663,10 @@ func (db *SpecDB) parseFile(fname, prefix, data string) {
 			kw = "cut"
 		} else if strings.HasPrefix(body, "assert@") {
 			kw = "assert"
+		} else if strings.HasPrefix(body, "let@") {
+			kw = "let"
+		} else if strings.HasPrefix(body, "from@") {
+			kw = "from"
 		}
 		var ctags []string
 		if m := tagsRe.FindStringSubmatch(body); m != nil {
@@ -835,7 +843,12 @@ func (db *SpecDB) parseFile(fname, prefix, data string) {
 				continue
 			}
 			switch kw {
-			case "requires", "ensures":
+			case "requires", "ensures", "assumes":
+				// assumes E: a postcondition that callers may use but that is NOT proved for the body (listed as an assumption)
+				assumed := kw == "assumes"
+				if assumed {
+					kw = "ensures"
+				}
 				label := ""
 				if strings.HasPrefix(rest, "\"") {
 					if j := strings.Index(rest[1:], "\""); j >= 0 && strings.HasPrefix(strings.TrimSpace(rest[j+2:]), ":") {
@@ -843,7 +856,10 @@ func (db *SpecDB) parseFile(fname, prefix, data string) {
 						rest = strings.TrimSpace(strings.TrimSpace(rest[j+2:])[1:])
 					}
 				}
-				cl := &Clause{Kind: kw, E: pe(rest), Tags: ctags, Label: label, Line: loc}
+				cl := &Clause{Kind: kw, E: pe(rest), Tags: ctags, Label: label, Line: loc, Assumed: assumed}
+				if assumed {
+					db.Assumes = append(db.Assumes, fmt.Sprintf("%s: postcondition assumed at call sites, not proved for the body: %s", cur.Key, rest))
+				}
 				if kw == "requires" {
 					cur.Requires = append(cur.Requires, cl)
 				} else {
@@ -939,6 +955,8 @@ func (db *SpecDB) parseFile(fname, prefix, data string) {
 				switch f[1] {
 				case "invariant":
 					ls.Invariants = append(ls.Invariants, &Clause{Kind: "invariant", E: pe(r2), Tags: ctags, Line: loc})
+				case "exit":
+					ls.Exits = append(ls.Exits, &Clause{Kind: "exit", E: pe(r2), Tags: ctags, Line: loc})
 				case "decreases":
 					ls.Decreases = &Clause{Kind: "decreases", E: pe(r2), Tags: ctags, Line: loc}
 				case "inherit":
@@ -946,6 +964,41 @@ func (db *SpecDB) parseFile(fname, prefix, data string) {
 				default:
 					errf("bad loop clause kind %q", f[1])
 				}
+			case "from":
+				// from@"anchor" E : verification of this function starts at the anchored statement, in an arbitrary state
+				// satisfying E; the code before it (and every exit not passing through it) is NOT verified
+				q := "\""
+				if strings.HasPrefix(body, "from@`") {
+					q = "`"
+				}
+				r := body[len("from@")+1:]
+				j := strings.Index(r, q)
+				if j < 0 {
+					errf("from anchor unterminated")
+					continue
+				}
+				cur.Asserts = append(cur.Asserts, &Clause{Kind: "from", Label: r[:j], E: pe(r[j+1:]), Tags: ctags, Line: loc})
+				cur.HasFrom = true
+				db.Assumes = append(db.Assumes, fmt.Sprintf("%s: verified only from the statement containing %q onwards, starting in an arbitrary state with %s; the code before it and exits that do not pass it are NOT verified", cur.Key, r[:j], strings.TrimSpace(r[j+1:])))
+			case "let":
+				// let@"anchor" name = E : ghost constant holding the value of E just before the anchored statement
+				q := "\""
+				if strings.HasPrefix(body, "let@`") {
+					q = "`"
+				}
+				r := body[len("let@")+1:]
+				j := strings.Index(r, q)
+				if j < 0 {
+					errf("let anchor unterminated")
+					continue
+				}
+				def := strings.TrimSpace(r[j+1:])
+				eq := strings.Index(def, "=")
+				if eq <= 0 {
+					errf("let needs name = expr")
+					continue
+				}
+				cur.Asserts = append(cur.Asserts, &Clause{Kind: "let", Label: r[:j], Name: strings.TrimSpace(def[:eq]), E: pe(def[eq+1:]), Tags: ctags, Line: loc})
 			case "assert":
 				// assert@"text" E
 				if strings.HasPrefix(body, "assert@`") {
